@@ -584,7 +584,55 @@ def h4_resources(npages=2, timeout=200, part=None, kinds=None, **kw):
                              npages, [RES_SPECS[k] for k in kinds] if kinds else RES_SPECS, RES_DEF_NAMES, RES_USE_NAMES)}, timeout, concretize=conc, part=part)
 
 
+# ------------------------------------------------------------------------------------------ H6 the next page starts from the initial graphics state
+PG_DIRTY = [b"", b"10 10 m 20 20 l ", b"10 10 m 20 20 l 30 5 l h ", b"q 2 0 0 2 3 3 cm q ", b"3 w [1 2] 0 d ", b"0.2 G 0.3 g ", b"/DeviceRGB cs /DeviceCMYK CS 0.1 0.2 0.3 sc ", b"1 2 3 4 5 6 7 8 ",
+            b"1 1 5 5 re ", b"0 0 1 rg 1 0 0 RG 2 0 0 2 0 0 cm "]
+PG_NEXT = [b"5 5 m 9 9 l S", b"1 1 5 5 re f", b"l 5 5 m 9 9 l 7 2 l h B*", b"Q 5 5 m 9 9 l S Q", b"0.5 0.6 0.7 sc 0.4 SC 5 5 m 9 9 l B", b"w d 5 5 m 9 9 l s", b"c re 5 5 m 9 9 l b"]
+
+
+def _pg_run(first, second):
+    import pdfminer.pdftypes as pt
+    from pdfminer.layout import LTPage
+    it, dev = _setup()
+    if first is not None:
+        it.render_contents({}, [pt.PDFStream({}, first)], ctm=I6)
+        dev.cur_item = LTPage(2, (0, 0, 1000, 1000))
+    it.render_contents({}, [pt.PDFStream({}, second)], ctm=I6)
+    return [(type(o).__name__, [tuple(p) for p in o.pts], o.stroke, o.fill, o.evenodd, o.linewidth, o.dashing_style, o.stroking_color, o.non_stroking_color, [tuple(x) for x in o.original_path])
+            for o in shapes_of(dev.cur_item)]
+
+
+def _pg_check(sel):
+    first, second = PG_DIRTY[sel["d1"]] + PG_DIRTY[sel["d2"]], PG_NEXT[sel["next"]]
+    try:
+        got, alone = _pg_run(first, second), _pg_run(None, second)
+    except Exception as e:
+        return "page %r after a page %r: raised %s: %s" % (second, first, type(e).__name__, e)
+    if got != alone:
+        return "page %r rendered after a page with the content %r yields the shapes %r, on a fresh interpreter %r" % (second, first, got, alone)
+    return None
+
+
+def h6_pages(timeout=200, part=None, **kw):
+    """a page that leaves a path under construction, saved states, a changed CTM, line width, dash, colours, colour spaces or operands behind, followed by a second page on the SAME
+    interpreter (as process_page does): the shapes of the second page are those a fresh interpreter yields (paths ended without painting leave no residue, the state starts afresh)"""
+    import pdfminer.pdfinterp as pi
+
+    def fn(ex):
+        sel = {"d1": ex.choice(len(PG_DIRTY), "d1"), "d2": ex.choice(len(PG_DIRTY), "d2"), "next": ex.choice(len(PG_NEXT), "next")}
+        r = _pg_check(sel)
+        ex.require(r is None, r or "", sel=sel)
+
+    def conc(m, info):
+        return info
+    P = pi.PDFPageInterpreter
+    return core.run_symx("H6_pages", fn, [P.render_contents, P.init_state, P.init_resources, P.execute], {"first page": "two fragments from %d" % len(PG_DIRTY), "second page": "%d programs" % len(PG_NEXT)},
+                         timeout, concretize=conc, part=part)
+
+
 def replay(harness, inp):
+    if harness == "H6_pages":
+        return _pg_check(inp["sel"])
     if harness == "H4_resources":
         return _res_check(inp["sel"])
     from fractions import Fraction as F
@@ -651,6 +699,7 @@ def replay(harness, inp):
 def jobs(tier):
     J = [Job("H2_quads:%d" % k, "h2_quads", {"part": [k, 3, 6]}, 300, "H2_quads") for k in range(3)]
     J += [Job("H3_saverestore:%d" % k, "h3_saverestore", {"part": [k, 4, 8]}, 300, "H3_saverestore") for k in range(4)]
+    J.append(Job("H6_pages", "h6_pages", {}, 200))
     J += [Job("H5_afterclose:%d" % k, "h5_afterclose", {"part": [k, 4, 5]}, 300, "H5_afterclose") for k in range(4)]
     J += [Job("H4_resources:%d" % k, "h4_resources", {"npages": 2, "kinds": RES_QUICK if tier == "quick" else None, "part": [k, 8, 6]}, 300 if tier == "quick" else 1800, "H4_resources") for k in range(8)]
     if tier == "quick":
